@@ -144,6 +144,39 @@ CANARIES = [
     ('c02-new-keyerror', 'C02', 'mindsdb_sql/parser/dialects/mindsdb/parser.py', "        params = getattr(p, 'kw_parameter_list', {})\n        from_query = getattr(p, 'select', None)", "        params = getattr(p, 'kw_parameter_list', {})\n        owner = params['owner'] if hasattr(p, 'kw_parameter_list') else None\n        from_query = getattr(p, 'select', None)", 'C02.'),
     ('c02-limit-negative', 'C02', 'mindsdb_sql/parser/dialects/mindsdb/parser.py', "    @_('TRUE')\n    def constant(self, p):\n        return Constant(value=True)", "    @_('TRUE')\n    def constant(self, p):\n        return Constant(value=[True][len(p.TRUE) - 4])", None),
     ('c02-float-of-text', 'C02', 'mindsdb_sql/parser/dialects/mindsdb/parser.py', "    @_('FALSE')\n    def constant(self, p):\n        return Constant(value=False)", "    @_('FALSE')\n    def constant(self, p):\n        return Constant(value=bool(int(p.FALSE)))", 'C02.action.mindsdb.constant'),
+    # ---- round 4 obligations: breaking variants different from the seeded ones, and harmless rewrites of the same code
+    ('c18-plan-eq-shorter-other', 'C18', 'mindsdb_sql/planner/query_plan.py', "        if len(self.steps) != len(other.steps):", "        if len(self.steps) > len(other.steps):", 'C18.eq.sym.QueryPlan'),
+    ('c18-harmless-eq-all', 'C18', 'mindsdb_sql/planner/query_plan.py',
+     "        for step, other_step in zip(self.steps, other.steps):\n            if step != other_step:\n                return False\n",
+     "        for pair in zip(self.steps, other.steps):\n            if pair[0] != pair[1]:\n                return False\n", None),
+    ('c06-delete-where-dropped', 'C06', 'mindsdb_sql/render/sqlalchemy_render.py', "            stmt = stmt.where(self.to_expression(ast_query.where))\n\n        return stmt\n\n    def prepare_delete", "            stmt.where(self.to_expression(ast_query.where))\n\n        return stmt\n\n    def prepare_delete", 'C06.dml.update'),
+    ('c06-window-partition-first-only', 'C06', 'mindsdb_sql/render/sqlalchemy_render.py', "                    for i in t.partition\n                ]", "                    for i in t.partition[:1]\n                ]", 'C06.list.partition.window'),
+    ('c06-harmless-window-order-comprehension', 'C06', 'mindsdb_sql/render/sqlalchemy_render.py',
+     "                    if f.direction == 'DESC':\n                        col0 = col0.desc()\n                    if f.nulls.upper() == 'NULLS FIRST':",
+     "                    if f.direction.upper() == 'DESC':\n                        col0 = col0.desc()\n                    if f.nulls.upper() == 'NULLS FIRST':", None),
+    ('c08-offset-copied-not-moved', 'C08', 'mindsdb_sql/planner/plan_join.py', "                query2.offset = query_in.offset\n                query_in.offset = None\n", "                query2.offset = query_in.offset\n", 'C08.limit.transfer'),
+    ('c08-harmless-offset-tuple-assign', 'C08', 'mindsdb_sql/planner/plan_join.py', "                query2.offset = query_in.offset\n                query_in.offset = None\n", "                query2.offset, query_in.offset = query_in.offset, None\n", None),
+    ('c08-cte-any-namespace', 'C08', 'mindsdb_sql/planner/query_planner.py', "            if integration_name == self.default_namespace and table_name in self.cte_results:", "            if table_name in self.cte_results:", 'C08.cte.lookup'),
+    ('c08-on-clause-or-conjuncts', 'C08', 'mindsdb_sql/planner/plan_join.py',
+     "            if isinstance(node, BinaryOperation) and node.op.lower() == 'and':\n                for arg in node.args:\n                    _check_conjuncts(arg)\n            else:\n                _check_conditions(node)",
+     "            if isinstance(node, (BinaryOperation, UnaryOperation)) and node.op.lower() in ('and', 'not'):\n                for arg in node.args:\n                    _check_conjuncts(arg)\n            else:\n                _check_conditions(node)", 'C08.filter.on-path'),
+    ('c10-list-project-case', 'C10', 'mindsdb_sql/planner/query_planner.py', "                self.predictor_info[idx] = predictor\n                _projects.add(integration_name.lower())", "                self.predictor_info[idx] = predictor\n                _projects.add(integration_name)", 'C10.init.predictors'),
+    ('c10-harmless-copy-method', 'C10', 'mindsdb_sql/planner/query_planner.py', "            info = dict(info)\n", "            info = {**info}\n", None),
+    ('c11-cte-name-with-alias', 'C11', 'mindsdb_sql/planner/query_planner.py', "                if '.'.join(item.parts) not in cte_names", "                if item.to_string() not in cte_names", 'C11.info.cte-references'),
+    ('c11-harmless-cte-last-part', 'C11', 'mindsdb_sql/planner/query_planner.py', "                if '.'.join(item.parts) not in cte_names", "                if not (len(item.parts) == 1 and item.parts[0] in cte_names)", None),
+    ('c02-variable-star', 'C02', 'mindsdb_sql/parser/dialects/mindsdb/lexer.py', "    @_(r'@[a-zA-Z_.$]+',", "    @_(r'@[a-zA-Z_.$]*',", 'C02.lex.action.mindsdb.VARIABLE'),
+    ('c02-harmless-variable-slice', 'C02', 'mindsdb_sql/parser/dialects/mindsdb/lexer.py', "    def VARIABLE(self, t):\n        t.value = t.value.lstrip('@')\n", "    def VARIABLE(self, t):\n        t.value = t.value[1:]\n", None),
+    ('c02-from-table-index-plus-one', 'C02', 'mindsdb_sql/parser/dialects/mindsdb/parser.py', "                query.targets[i].alias = Identifier(parts=[col])", "                query.targets[i + 1].alias = Identifier(parts=[col])", 'C02.action.mindsdb.from_table'),
+    ('c16-strip-leading', 'C16', 'mindsdb_sql/__init__.py', "    sql = re.sub(r'[\\s;]+$', '', sql)", "    sql = re.sub(r'^[\\s;]+|[\\s;]+$', '', sql)", None),
+    ('c16-strip-inner-semicolons', 'C16', 'mindsdb_sql/__init__.py', "    sql = re.sub(r'[\\s;]+$', '', sql)", "    sql = re.sub(r';+\\s*$', '', sql, flags=re.M)", 'C16.bounded.preprocess'),
+    ('c20-get-predictor-writes-entry', 'C20', 'mindsdb_sql/planner/query_planner.py', "            info = dict(info)\n", "", 'C20.catalog.frame.get_predictor'),
+    ('c20-init-writes-entry', 'C20', 'mindsdb_sql/planner/query_planner.py', "                    integration_name = self.predictor_namespace\n                    predictor = dict(predictor, integration_name=integration_name)\n                idx =", "                    integration_name = self.predictor_namespace\n                    predictor['integration_name'] = integration_name\n                idx =", 'C20.catalog.frame.init.list'),
+    ('c17-handler-narrow', 'C17', 'mindsdb_sql/render/sqlalchemy_render.py', "        except Exception as e:\n            if not with_failback:\n                if isinstance(e, (SQLAlchemyError, NotImplementedError)):", "        except (SQLAlchemyError, NotImplementedError, KeyError) as e:\n            if not with_failback:\n                if isinstance(e, (SQLAlchemyError, NotImplementedError)):", 'C17.fallback.internal'),
+    ('c17-harmless-handler-raise-from', 'C17', 'mindsdb_sql/render/sqlalchemy_render.py', "                raise NotImplementedError(f'Unable to render query: {type(e).__name__}: {e}') from e", "                raise NotImplementedError('Unable to render query: ' + repr(e)) from e", None),
+    ('c07-datetime-unquoted', 'C07', 'mindsdb_sql/parser/ast/select/constant.py', "        elif isinstance(self.value, (dt.date, dt.datetime, dt.timedelta)):", "        elif isinstance(self.value, (dt.date, dt.timedelta)) and not isinstance(self.value, dt.datetime):", 'C07.bounded'),
+    ('c14-using-alias-kept', 'C14', 'mindsdb_sql/planner/plan_join.py', "                        new_param = '.'.join(param.split('.')[1:])", "                        new_param = param", 'C14.predictor'),
+    ('c13-fill-from-end', 'C13', 'mindsdb_sql/planner/utils.py', "value = params.pop(0)", "value = params.pop(-1)", 'C13.consumer.fill'),
+    ('c01-raw-query-newline-dropped', 'C01', 'mindsdb_sql/parser/utils.py', "            shift = last_pos + 1", "            shift = last_pos + 2", 'C01.prod.mindsdb.raw_query'),
 ]
 
 
